@@ -21,8 +21,12 @@ RULE = ('scalable shapes f(n) are measured at n, 2n, 4n, 8n (quick n = 128, thor
         'colon-less / equals-less lines, huge digit strings, deep repetition of the nesting the grammar allows) and, for '
         'every concrete class, generic pumped shapes from its seeds (a seed with one segment repeated k times, the seed '
         'repeated, constant fills); in addition seeded mutants of the seeds are measured once each against the '
-        'absolute bound. Non-trivial: the input reaches the pumped loop (accepted, or steps >= len/4). Distinct by '
-        '(class, shape, n).')
+        'absolute bound. Declared amounts: for every accepted seed (<= 2 KiB) the offsets where the parser reads a '
+        '2/3/4/8-byte quantity are found by cutting the seed at every offset (NotEnoughData(width)); at each the '
+        'field is set to a quarter of and to the whole maximum of its width, with and without the rest of the seed '
+        'behind it, and the two parses must cost about the same. Non-trivial: the input reaches the pumped loop '
+        '(accepted, or steps >= len/4), every declared-amount probe. Distinct by (class, shape, n) / (class, seed, '
+        'offset, width, variant).')
 ASSUMPTIONS = [
     'interpreter-level steps (LINE events of all Python code run by the call, dependencies included) are what is '
     'bounded; C-level work (slice copies, list.insert(0, ...)) and wall time are not visible to the meter',
@@ -30,6 +34,9 @@ ASSUMPTIONS = [
     'cost between n and 2n when all four sizes end in the same outcome (quadratic work gives 4x), and steps <= 20000 '
     '+ 6000 * len(input) for every measured input; depth must not grow strictly with n and stay <= 120 frames',
     'a measurement is cut off at 4x the absolute bound (the call is then reported, not waited for)',
+    'declared amounts: two same-sized inputs that announce 0x3fff.. and 0xffff.. in one length / count field and end '
+    'in the same outcome may differ by a factor of two plus 2000 steps (a one-byte field can never exceed that and '
+    'is not probed)',
 ]
 
 STEPS_PER_BYTE = 6000
@@ -239,6 +246,8 @@ def check_case(case):
         if depth > MAX_DEPTH or kind == 'recursion':
             findings.append(Finding('depth/%s:fuzz' % name, {'len': len(data), 'depth': depth}))
         return findings
+    if case.get('kind') == 'declared':
+        return _check_declared(cls, name, case)
     label = case.get('shape') or case['mode']
     base = case['n']
     results = []
@@ -274,6 +283,80 @@ def check_case(case):
 check_case.results = []
 check_case.reached = False
 
+DECLARED_WIDTHS = (2, 3, 4, 8)
+DECLARED_SLACK = 2000
+
+
+def declared_inputs(seed, pos, width, keep):
+    """The seed with the numeric field at `pos` raised to a quarter of / the whole maximum of its width, followed by
+    the rest of the seed (keep) or by nothing (the declared amount then has no data at all behind it)."""
+    tail = seed[pos + width:] if keep else b''
+    return (seed[:pos] + b'\x3f' + b'\xff' * (width - 1) + tail, seed[:pos] + b'\xff' * width + tail)
+
+
+def _check_declared(cls, name, case):
+    """Declared counts and lengths never drive work: two inputs of the same size that differ only in how much a
+    length / count field announces (both far more than is there) must cost about the same."""
+    seed = bytes.fromhex(case['seed'])
+    small, large = declared_inputs(seed, case['pos'], case['width'], case['keep'])
+    kind_small, steps_small, _depth, bound = _measure(cls, small)
+    kind_large, steps_large, _depth, bound = _measure(cls, large)
+    check_case.results = [(len(small), kind_small, steps_small, 0), (len(large), kind_large, steps_large, 0)]
+    check_case.reached = True
+    findings = []
+    if kind_large == 'limit' or steps_large > bound:
+        findings.append(Finding('absolute-bound/%s:declared' % name, {
+            'len': len(large), 'steps': steps_large, 'bound': bound, 'cut_off': kind_large == 'limit', 'pos': case['pos']}))
+    elif kind_small == kind_large and steps_large > 2 * steps_small + DECLARED_SLACK:
+        findings.append(Finding('declared-amount-drives-work/%s' % name, {
+            'pos': case['pos'], 'width': case['width'], 'keep': case['keep'], 'len': len(large),
+            'steps_quarter_max': steps_small, 'steps_max': steps_large, 'outcome': kind_large}))
+    return findings
+
+
+def declared_candidates(cls, seed):
+    """Offsets at which the parser reads a 2/3/4/8-byte quantity: cutting the seed there is answered with
+    NotEnoughData(bytes_needed = width), cutting one byte later with width - 1, and cutting one byte earlier is not
+    answered with width + 1 (that would be the tail of a longer field, e.g. the last bytes of a string)."""
+    errors = lib.errors()
+    needed = []
+    for pos in range(len(seed)):
+        outcome = lib.call(cls.parse_immutable, seed[:pos])
+        missing = outcome.exc.bytes_needed if not outcome.ok and isinstance(outcome.exc, errors.NotEnoughData) else None
+        needed.append(missing)
+    return [(pos, width) for pos, width in enumerate(needed)
+            if width in DECLARED_WIDTHS and pos + width <= len(seed) and (pos == 0 or needed[pos - 1] != width + 1)
+            and needed[pos + 1] == width - 1]
+
+
+def _declared_job(arg):
+    index, shards, seeds_per_class, budget_s = arg
+    started = time.time()
+    stats = Stats()
+    for cls in lib.concrete_classes()[index::shards]:
+        ref = lib.ref_of(cls)
+        base = [b for b in list(seeds.seeds_for(cls)) + registry.composed_examples(cls) if 4 <= len(b) <= 2048]
+        base = [b for b in base if lib.call(cls.parse_immutable, b).ok]
+        if len(base) > seeds_per_class:
+            # the longest ones carry the most fields; keep the shortest too
+            base = sorted(base, key=len)
+            base = [base[0]] + base[-(seeds_per_class - 1):] if seeds_per_class > 1 else base[-1:]
+        seen = set()
+        for seed in base:
+            for pos, width in declared_candidates(cls, seed):
+                # one probe per distinct (prefix structure, width): the same field of another seed adds nothing
+                signature = (pos, width, seed[:pos][-8:])
+                if signature in seen:
+                    continue
+                seen.add(signature)
+                for keep in (False, True):
+                    if time.time() - started > budget_s:
+                        stats.budget_reached = True
+                        return stats
+                    _run_case(stats, {'kind': 'declared', 'cls': ref, 'seed': seed.hex(), 'pos': pos, 'width': width,
+                                      'keep': keep}, 'declared:' + ('keep' if keep else 'cut'))
+    return stats
+
 
 def _run_case(stats, case, label):
     stats.evaluations += 1
@@ -283,7 +366,7 @@ def _run_case(stats, case, label):
         findings = check_case(case)
     name = case['cls'].split(':')[-1]
     if check_case.reached:
-        stats.nontriv((case['cls'], case.get('shape') or case.get('mode') or case.get('hex'), case.get('n'), case.get('seed', '')[:40], str(case.get('segment'))))
+        stats.nontriv((case['cls'], case.get('shape') or case.get('mode') or case.get('hex'), case.get('n'), case.get('seed', '')[:40], str(case.get('segment')), case.get('pos'), case.get('width'), case.get('keep')))
         stats.classes[name] += 1
         if 'shape' in case:
             stats.sample('shape', {'cls': name, 'shape': case['shape'], 'n': case['n'],
@@ -333,6 +416,8 @@ def _generic_job(arg):
 
 
 def _job(arg):
+    if arg[0] == 'declared':
+        return _declared_job(arg[1:])
     return _shape_job(arg[1:]) if arg[0] == 'shape' else _generic_job(arg[1:])
 
 
@@ -345,6 +430,7 @@ def run(ctx):
     jobs = [('shape', index, 24, base_n) for index in range(24)]
     jobs += [('generic', index, shards, base_n // 2, per_class, fuzz_per_class, ctx.derive_seed('generic', index), budget_s)
              for index in range(shards)]
+    jobs += [('declared', index, shards, 3 if ctx.quick else 40, budget_s) for index in range(shards)]
     stats = pool.run_shards(_job, jobs)
     stats.extra['hand_written_shapes'] = len(SHAPES)
     stats.extra['bound'] = 'steps <= %d + %d * len; marginal steps/byte(4n..8n) <= 1.5 * marginal(n..2n) + 30; depth <= %d' % (STEPS_BASE, STEPS_PER_BYTE, MAX_DEPTH)
